@@ -11,7 +11,7 @@ from clastic import Application, Route
 
 from sim.core.base import Check, RunResult, Streams, InvalidPlan, canon
 from sim.core.gateway import make_environ, call_app
-from sim.worlds.chain import RT, make_function, make_mw_type, EXC_TYPES
+from sim.worlds.chain import RT, make_function, make_mw_type, EXC_TYPES, OnionModel
 
 LAYER_BEHS = ['raise_before', 'raise_after', 'return_early', 'swallow']
 PHASES = ('request', 'endpoint', 'render')
@@ -57,82 +57,11 @@ def chain_functions(cfg):
     return out
 
 
-class _Raised(Exception):
-    def __init__(self, label):
-        self.label = label
-
-
-class Model(object):
-    """Reference onion interpreter."""
-
-    def __init__(self, cfg, faults):
-        self.cfg, self.faults = cfg, faults
-        self.trace = []
-        self.n = 0
-
-    def new(self, hint):
-        self.n += 1
-        return '%s#%d' % (hint, self.n)
-
-    def layers(self, names, inner):
-        if not names:
-            return inner()
-        name, rest = names[0], names[1:]
-        beh = (self.faults.get(name) or {}).get('beh', 'pass')
-        self.trace.append('>' + name)
-        if beh == 'raise_before':
-            lab = self.new('exc:' + self.faults[name].get('exc', 'Boom'))
-            self.trace.append('!%s %s' % (name, lab))
-            raise _Raised(lab)
-        if beh == 'return_early':
-            lab = self.new('resp:' + name)
-            self.trace.append('<%s %s' % (name, lab))
-            return ('resp', lab, name)
-        try:
-            r = self.layers(rest, inner)
-        except _Raised as e:
-            self.trace.append('x%s %s' % (name, e.label))
-            if beh == 'swallow':
-                lab = self.new('resp:' + name)
-                self.trace.append('<%s %s' % (name, lab))
-                return ('resp', lab, name)
-            raise
-        if beh == 'raise_after':
-            lab = self.new('exc:' + self.faults[name].get('exc', 'Boom'))
-            self.trace.append('!%s %s' % (name, lab))
-            raise _Raised(lab)
-        self.trace.append('<%s %s' % (name, r[1]))
-        return r
-
-    def leaf(self, name, kind):
-        self.trace.append('>' + name)
-        beh = (self.faults.get(name) or {}).get('beh', 'pass')
-        if beh == 'raise':
-            lab = self.new('exc:' + self.faults[name].get('exc', 'Boom'))
-            self.trace.append('!%s %s' % (name, lab))
-            raise _Raised(lab)
-        lab = self.new(('ctx:' if kind == 'dict' else 'resp:') + name)
-        self.trace.append('<%s %s' % (name, lab))
-        return ('ctx' if kind == 'dict' else 'resp', lab, name)
-
-    def run(self):
-        cfg = self.cfg
-        fn = chain_functions(cfg)
-
-        def process_request():
-            ctx = self.layers(fn['endpoint'], lambda: self.leaf('EP', cfg['ep_returns']))
-            if ctx[0] == 'resp':
-                return ctx      # render (and its middlewares) skipped for a Response
-            if cfg['has_render']:
-                return self.layers(fn['render'], lambda: self.leaf('RN', 'resp'))
-            return self.layers(fn['render'], lambda: ctx)   # no render function: context passes unchanged
-        try:
-            out = self.layers(fn['request'], process_request)
-        except _Raised:
-            return self.trace, (500, None)
-        if out[0] != 'resp':
-            return self.trace, (500, None)
-        return self.trace, (200, out[2])
+def model_run(cfg, faults):
+    trace, final = OnionModel(chain_functions(cfg), faults, cfg['ep_returns'], cfg['has_render']).run()
+    if final[0] == 'value' and final[1][0] == 'resp':
+        return trace, (200, final[1][2])
+    return trace, (500, None)
 
 
 # ---------------------------------------------------------------------------
@@ -251,7 +180,7 @@ class C03(Check):
                                     len(cfg['route']), cfg['ep_returns'], cfg['has_render'])
         for step, op in enumerate(plan['ops']):
             faults = op['faults']
-            exp_trace, exp_out = Model(cfg, faults).run()
+            exp_trace, exp_out = model_run(cfg, faults)
             RT.reset(faults)
             RT.set_seq(step)
             ex = call_app(app, make_environ('GET', path))
